@@ -47,8 +47,7 @@ static World* makeWorld() {
   w->leafT = Manifold::Sphere(0.8, 6).Translate({0.5, 0, 0}).Rotate(10, 20, 30);  // leaf with a pending transform
   w->smooth = Manifold::Tetrahedron().SmoothOut();
   (void)w->smooth.NumTri();
-  w->H2 = Manifold::Cube();
-  (void)w->H2.NumTri();
+  w->H2 = w->leafT;  // a second handle on the same lazily transformed leaf node
   w->CS = CrossSection::Square({1, 2}).Translate({0.5, 0}).Rotate(30) - CrossSection::Circle(0.4, 6);
   return w;
 }
@@ -73,10 +72,10 @@ static std::vector<Op> ops() {
                  snprintf(b, sizeof b, "%.17g", l.Volume());
                  return std::string(b);
                }});
-  O.push_back({"H2=leafT", [](World& w) {
-                 w.H2 = w.leafT;  // assignment INTO a shared handle while others read it
-                 return std::string("assigned");
-               }});
+  // (Assignment INTO a shared handle while other threads read it is not promised by the statement - "copy and
+  //  assign FROM it" - and is therefore not in the alphabet.  A first version had "H2 = leafT"; under TSan it showed
+  //  a use-after-free of the old leaf node in a concurrent H2.NumTri() (GetCsgLeafNode returns a reference that the
+  //  assignment can free), recorded in DESIGN.md as an observation outside the property.)
   O.push_back({"H2.NumTri", [](World& w) { return std::to_string(w.H2.NumTri()); }});
   O.push_back({"copy(H2).NumVert", [](World& w) {
                  Manifold c(w.H2);
@@ -141,7 +140,7 @@ int main(int argc, char** argv) {
   std::vector<std::vector<int>> groups;
   groups.push_back({idx("R.Status"), idx("R.NumTri"), idx("R.GetMeshGL64"), idx("copy(R).NumVert"), idx("local=R;local.Volume"),
                     idx("(R+X).NumTri"), idx("R.Translate.NumVert"), idx("R2.NumTri"), idx("R.WithContext.Status")});
-  groups.push_back({idx("H2=leafT"), idx("H2.NumTri"), idx("copy(H2).NumVert"), idx("leafT.GetMeshGL64")});
+  groups.push_back({idx("H2.NumTri"), idx("copy(H2).NumVert"), idx("leafT.GetMeshGL64")});
   groups.push_back({idx("R.WithContext.Status"), idx("ctx.Cancel"), idx("ctx.Progress")});
   groups.push_back({idx("CS.Area"), idx("CS.ToPolygons"), idx("copy(CS).NumVert")});
   groups.push_back({idx("ReserveIDs(2)"), idx("(R+X).NumTri"), idx("smooth.Refine(3)")});
